@@ -141,7 +141,7 @@ def shallowE : Expr → Nat
   | .ifx .. => C.ifx
   | .interp _ => C.interp
   | .cast .. => C.cast + C.tyNode
-  | .inst .. => C.inst + C.tyNode
+  | .inst _ tys => C.inst + C.tyNode * tys.length
   | .fn body => shallowF C body
   | _ => 0
 
